@@ -77,6 +77,30 @@ void h_samplestate_match(void) {
 }
 
 /* ======================================================================================================
+ * ldb_vector_sort by contract: VERBATIM copy of c_vector_sort and its macros from units/ver2.c (enforced there by ver2.sort on the
+ * real quicksort of src/util/vector.c with the real comparator newest_first, <= 3 elements).
+ * ====================================================================================================== */
+#define IS_L0(p) ((p) == (void *)&fm_0_0 || (p) == (void *)&fm_0_1 || (p) == (void *)&fm_0_2)
+#define NUM_OF(p) ((p) == (void *)&fm_0_0 ? g_num[0][0] : (p) == (void *)&fm_0_1 ? g_num[0][1] : g_num[0][2])
+#define L0_NUMS_TIED (fm_0_0.number == g_num[0][0] && fm_0_1.number == g_num[0][1] && fm_0_2.number == g_num[0][2])
+#define PERM1(n0, o0) ((n0) == (o0))
+#define PERM2(n0, n1, o0, o1) (((n0) == (o0) && (n1) == (o1)) || ((n0) == (o1) && (n1) == (o0)))
+#define PERM3(n0, n1, n2, o0, o1, o2) \
+  (((n0) == (o0) && PERM2(n1, n2, o1, o2)) || ((n0) == (o1) && PERM2(n1, n2, o0, o2)) || ((n0) == (o2) && PERM2(n1, n2, o0, o1)))
+void c_vector_sort(ldb_vector_t *z, int (*cmp)(void *, void *))
+__CPROVER_requires(__CPROVER_rw_ok(z, sizeof(*z)) && cmp == newest_first)
+__CPROVER_requires(z->length >= 1 && z->length <= 3 && __CPROVER_rw_ok(z->items, 3 * sizeof(void *)))
+__CPROVER_requires(IS_L0(z->items[0]) && (z->length < 2 || IS_L0(z->items[1])) && (z->length < 3 || IS_L0(z->items[2])))
+__CPROVER_requires(L0_NUMS_TIED)
+__CPROVER_assigns(z->items[0], z->items[1], z->items[2])
+__CPROVER_ensures(z->length == 1 ==> PERM1(z->items[0], __CPROVER_old(z->items[0])))
+__CPROVER_ensures(z->length == 2 ==> PERM2(z->items[0], z->items[1], __CPROVER_old(z->items[0]), __CPROVER_old(z->items[1])))
+__CPROVER_ensures(z->length == 3 ==> PERM3(z->items[0], z->items[1], z->items[2], __CPROVER_old(z->items[0]), __CPROVER_old(z->items[1]), __CPROVER_old(z->items[2])))
+__CPROVER_ensures(z->length < 2 || NUM_OF(z->items[0]) >= NUM_OF(z->items[1]))
+__CPROVER_ensures(z->length < 3 || NUM_OF(z->items[1]) >= NUM_OF(z->items[2]))
+;
+
+/* ======================================================================================================
  * ver3.stats.sample - ldb_version_record_read_sample
  * ======================================================================================================
  * <= 2 files in level 0 (arbitrary overlapping ranges, distinct numbers), <= 2 files in each of the levels 1 and 6
@@ -116,8 +140,8 @@ void h_record_read_sample(void) {
   int r, parse_ok; ldb_filemeta_t *ftc0, *charged;
   ASSUME(in_n0 <= SF0 && in_n1 <= 2 && in_n6 <= 2);
   mk_version();
-  /* both level-0 / level-1 / level-6 model files exist as objects even when the level is shorter */
-  mk_level(0, 2); mk_level(0, in_n0); mk_level(1, 2); mk_level(1, in_n1); mk_level(6, 2); mk_level(6, in_n6);
+  /* all model files of the three levels exist as objects even when the level is shorter (the sort contract names the level-0 ones) */
+  mk_level(0, 3); mk_level(0, in_n0); mk_level(1, 2); mk_level(1, in_n1); mk_level(6, 2); mk_level(6, in_n6);
   ASSUME(DISJOINT_SORTED(1) && DISJOINT_SORTED(6));
   ASSUME(g_num[0][0] != g_num[0][1]);                       /* ver.numbers: no file number is handed out twice */
   /* no file is within one step of INT_MIN (see ver3.stats.update) */
@@ -187,7 +211,7 @@ static int sl_cb(void *arg, int level, ldb_filemeta_t *f) {
 static void mk_oracle_world(size_t n0, size_t n1, size_t n2, size_t n3, size_t n4, size_t n5, size_t n6) {
   ASSUME(n0 <= 2 && n1 <= 2 && n2 <= 2 && n3 <= 2 && n4 <= 2 && n5 <= 2 && n6 <= 2);
   mk_version();
-  mk_level(0, n0); mk_level(1, n1); mk_level(2, n2); mk_level(3, n3); mk_level(4, n4); mk_level(5, n5); mk_level(6, n6);
+  mk_level(0, 3); mk_level(0, n0); mk_level(1, n1); mk_level(2, n2); mk_level(3, n3); mk_level(4, n4); mk_level(5, n5); mk_level(6, n6);
   g_or_ucmp.name = "oracle"; g_or_ucmp.compare = or_compare; g_or_ucmp.shortest_separator = NULL; g_or_ucmp.short_successor = NULL;
   g_or_ucmp.user_comparator = NULL; g_or_ucmp.state = NULL;
   g_vset.icmp.compare = or_compare; g_vset.icmp.user_comparator = &g_or_ucmp;
